@@ -198,8 +198,43 @@ def marker_shift_rules(prog, rep):
     rep.floor("R4.marker-shifts", n, 2)
 
 
+def scan_direction_rules(prog, rep):
+    """_find_intersection looks for a segment of the (coarse) contour that already crosses the
+    wall.  A flux surface followed past a target can cross the wall again (baffles, slots); the
+    target is the crossing nearest to the plasma, i.e. the first one met when walking from the
+    start index towards that end of the contour: downwards for the lower wall, upwards for the
+    upper wall, stopping at the first hit."""
+    f = prog.func(MESH, "_find_intersection")
+    mod = f.module
+    n = 0
+    for end, step_want in (("lower", -1), ("upper", 1)):
+        var = "coarse_%s_intersect" % end
+        loops = [l for l in walk_own(f.node) if isinstance(l, ast.For) and any(isinstance(s, ast.Assign) and isinstance(s.targets[0], ast.Name) and s.targets[0].id == var for s in l.body)]
+        if len(loops) != 1:
+            rep.ob("R4", "_find_intersection: one scan for a segment crossing the %s wall" % end, False, f.site(), "unmodelled: %d loops assign %s" % (len(loops), var), key="scan/%s/loop" % end)
+            continue
+        l = loops[0]
+        n += 1
+        it = l.iter
+        ok, detail = False, "unmodelled iterable %s" % mod.code(it)
+        if isinstance(it, ast.Call) and mod.code(it.func) == "range":
+            a = it.args
+            start = mod.code(a[0]) if len(a) >= 2 else "0"
+            step = (mod.code(a[2]) if len(a) == 3 else "1")
+            if end == "lower":
+                ok = len(a) == 3 and start == "starti" and step == "-1" and mod.code(a[1]) == "0"
+            else:
+                ok = len(a) == 2 and start == "starti" and mod.code(a[1]) == K("len(contour) - 1")
+            detail = "" if ok else "definite: the scan runs over %s: it does not start at the start index and walk towards the %s end, so with several crossings it stops at one farther from the plasma" % (mod.code(it), end)
+        stops = any(isinstance(s, ast.If) and var in mod.code(s.test) and "isnotNone" in mod.code(s.test) and isinstance(s.body[-1], ast.Break) for s in l.body)
+        rep.ob("R4", "_find_intersection: the %s-wall scan walks from the start index towards the %s end and stops at the first crossing" % (end, end), ok and stops, f.site(l),
+               detail if not ok else ("" if stops else "definite: the scan does not stop at the first crossing"), key="scan/%s/direction" % end)
+    rep.floor("R4.scans", n, 2)
+
+
 def r4(prog, rep):
     marker_shift_rules(prog, rep)
+    scan_direction_rules(prog, rep)
     g = prog.func(MESH, "MeshRegion.addPointAtWallToContours")
     mod = g.module
     for end, var, setter in (("lower", "lower_intersect_index", "startInd"), ("upper", "upper_intersect_index", "endInd")):
